@@ -8,6 +8,7 @@ cases
   {"t": "arg", "ty": T, "val": V}                   T = "int" | "str" | "bool" | ["list", T]; V = int | hex | bool | [V...]
   {"t": "argx", "ty": name, "val": ...}             Float / Decimal / DateTime / Unicode / Path / AmpList: round trip on the
                                                     implementation only (not modelled)
+  argx types: float, decimal, listdecimal, listfloat, unicode, path, datetime, amplist (Integer + String + ListOf(Decimal))
 observations
   recv:  B[k=v,k=v];B[...] |open|closed     (items of each received box sorted by key, hex)
   send:  OK:<hex> | ERR          arg: E:<hex> D:<value> | ERR        argx: E:<hex> RT:same|DIFF:<repr> | ERR:<class>
@@ -108,6 +109,21 @@ def arg_impl(ty, v):
     return "E:" + e.hex() + " D:" + _show(ty, a.fromString(e))
 
 
+def _dec_same(p, q):
+    """exact: sign, every digit, exponent (also tells NaN payloads and -0 apart)"""
+    return p.as_tuple() == q.as_tuple()
+
+
+def _float_same(p, q):
+    """bit for bit; all NaNs count as one value (repr() has no way to name a NaN payload or sign)"""
+    return struct.pack("!d", p) == struct.pack("!d", q) or (math.isnan(p) and math.isnan(q))
+
+
+def _dt_same(p, q):
+    return (p.timetuple()[:6] == q.timetuple()[:6] and p.microsecond == q.microsecond and p.utcoffset() == q.utcoffset()
+            and q.tzinfo is not None)
+
+
 def argx_impl(ty, v):
     from twisted.protocols import amp
     from twisted.python import filepath
@@ -115,10 +131,16 @@ def argx_impl(ty, v):
     same = lambda a, b: a == b
     if ty == "float":
         a, x = amp.Float(), struct.unpack("!d", bytes.fromhex(v))[0]
-        same = lambda p, q: struct.pack("!d", p) == struct.pack("!d", q) or (math.isnan(p) and math.isnan(q))
+        same = _float_same
     elif ty == "decimal":
-        a, x = amp.Decimal(), decimal.Decimal(v)
-        same = lambda p, q: str(p) == str(q)
+        a, x = amp.Decimal(), decimal.Decimal(v)          # Decimal(str) is exact, whatever the context
+        same = _dec_same
+    elif ty == "listdecimal":
+        a, x = amp.ListOf(amp.Decimal()), [decimal.Decimal(s) for s in v]
+        same = lambda p, q: len(p) == len(q) and all(_dec_same(i, j) for i, j in zip(p, q))
+    elif ty == "listfloat":
+        a, x = amp.ListOf(amp.Float()), [struct.unpack("!d", bytes.fromhex(s))[0] for s in v]
+        same = lambda p, q: len(p) == len(q) and all(_float_same(i, j) for i, j in zip(p, q))
     elif ty == "unicode":
         a, x = amp.Unicode(), v
     elif ty == "path":
@@ -126,18 +148,26 @@ def argx_impl(ty, v):
     elif ty == "datetime":
         tz = amp.utc if v[7] is None else amp._FixedOffsetTZInfo.fromSignHoursMinutes(*v[7])
         a, x = amp.DateTime(), datetime.datetime(*v[:7], tzinfo=tz)
-        same = lambda p, q: p == q and p.utcoffset() == q.utcoffset() and p.timetuple()[:6] == q.timetuple()[:6] and p.microsecond == q.microsecond
+        same = _dt_same
     elif ty == "amplist":
-        a = amp.AmpList([(b"a", amp.Integer()), (b"b", amp.String())])
-        x = [{"a": d[0], "b": bytes.fromhex(d[1])} for d in v]
-        e = a.toStringProto(x, None)
+        a = amp.AmpList([(b"a", amp.Integer()), (b"b", amp.String()), (b"c", amp.ListOf(amp.Decimal()))])
+        x = [{"a": d[0], "b": bytes.fromhex(d[1]), "c": [decimal.Decimal(s) for s in d[2]]} for d in v]
+        try:
+            e = a.toStringProto(x, None)
+        except amp.TooLong:
+            return "ERR:TooLong"
         y = a.fromStringProto(e, None)
-        return "E:" + e.hex() + (" RT:same" if y == x else " RT:DIFF:" + repr(y)[:80])
+        ok = len(x) == len(y) and all(p["a"] == q["a"] and p["b"] == q["b"] and len(p["c"]) == len(q["c"])
+                                      and all(_dec_same(i, j) for i, j in zip(p["c"], q["c"])) for p, q in zip(x, y))
+        return "E:" + e[:64].hex() + (" RT:same" if ok else " RT:DIFF:" + repr(y)[:80])
     else:
         raise AssertionError(ty)
-    e = a.toString(x)
+    try:
+        e = a.toString(x)
+    except (UnicodeEncodeError, struct.error) as ex:
+        return "ERR:" + type(ex).__name__
     y = a.fromString(e)
-    return "E:" + e.hex() + (" RT:same" if same(x, y) else " RT:DIFF:" + repr(y)[:80])
+    return "E:" + e[:64].hex() + (" RT:same" if same(x, y) else " RT:DIFF:" + repr(y)[:80])
 
 
 def members(case):
@@ -259,6 +289,11 @@ def oracle(case, obs):
         if obs != want:
             return Failure(case, f"expected {want[:160]}, got {obs[:160]}", "arg-roundtrip-" + (ty if isinstance(ty, str) else "list"))
         return None
+    if obs.startswith("ERR:"):
+        legit = ((case["ty"] == "unicode" and obs == "ERR:UnicodeEncodeError" and any(0xD800 <= ord(ch) <= 0xDFFF for ch in case["val"]))
+                 or (case["ty"] == "amplist" and obs == "ERR:TooLong" and any(len(d[1]) // 2 > 65535 for d in case["val"]))
+                 or (case["ty"] in ("listdecimal", "listfloat") and obs == "ERR:error" and any(len(s) > 65535 for s in case["val"])))
+        return None if legit else Failure(case, f"value refused: {obs}", "argx-refused-" + case["ty"])
     if " RT:same" not in obs:
         return Failure(case, f"decode(encode(x)) != x: {obs[:200]}", "argx-roundtrip-" + case["ty"])
     return None
@@ -315,7 +350,8 @@ def random_split(rng, s):
 
 def rand_val(rng, ty, depth=0):
     if ty == "int":
-        return rng.choice([0, 1, -1, 9, 10, -10, 255, 65535, 2 ** 64, -(2 ** 70) - 1, 10 ** 30, rng.randrange(-10 ** 6, 10 ** 6)])
+        return rng.choice([0, 1, -1, 9, 10, -10, 255, 65535, 2 ** 64, -(2 ** 64), 2 ** 64 - 1, -(2 ** 70) - 1, 10 ** 30, 2 ** 1000, -(2 ** 1000),
+                           10 ** 100 - 1, rng.randrange(-10 ** 6, 10 ** 6)])
     if ty == "str":
         return bytes(rng.randrange(256) for _ in range(rng.choice([0, 1, 2, 10, 10, 255, 256, 300]))).hex()
     if ty == "bool":
@@ -362,26 +398,74 @@ def gen(rng, tier):
     for _ in range(3 * n):
         ty = rng.choice(tys)
         cases.append({"t": "arg", "ty": ty, "val": rand_val(rng, ty)})
-    for _ in range(2 * n):
-        k = rng.choice(["float", "decimal", "unicode", "path", "datetime", "amplist"])
-        if k == "float":
-            v = rng.choice([struct.pack("!d", x).hex() for x in (0.0, -0.0, 1.5, 1e308, 5e-324, float("inf"), float("-inf"), float("nan"), 0.1)]
-                           + [struct.pack("!Q", rng.getrandbits(64)).hex()])
-        elif k == "decimal":
-            v = rng.choice(["0", "-0", "1.50", "1E+30", "NaN", "-NaN", "sNaN", "Infinity", "-Infinity", "1e-400", "123456789.000000001",
-                            str(rng.randrange(-10 ** 9, 10 ** 9)) + "e" + str(rng.randrange(-30, 30))])
-        elif k == "unicode":
-            v = rng.choice(["", "abc", "é中\U0001F600", "\x00\n", "a" * 100])
-        elif k == "path":
-            v = rng.choice(["/tmp/x", "relative/p", "/", "/a b/é"])
-        elif k == "datetime":
-            off = rng.choice([None, ["+", 0, 0], ["-", 5, 30], ["+", 14, 0], ["-", 23, 59], ["+", 0, 1]])
-            v = [rng.choice([1, 1970, 2024, 9999]), rng.randrange(1, 13), rng.randrange(1, 29), rng.randrange(24), rng.randrange(60),
-                 rng.randrange(60), rng.choice([0, 1, 999999, rng.randrange(10 ** 6)]), off]
-        else:
-            v = [[rng.randrange(-100, 100), bytes(rng.randrange(256) for _ in range(rng.choice([0, 1, 3]))).hex()] for _ in range(rng.choice([0, 1, 3]))]
-        cases.append({"t": "argx", "ty": k, "val": v})
+    for _ in range(3 * n):
+        k = rng.choice(["float", "decimal", "decimal", "decimal", "unicode", "path", "datetime", "amplist", "listdecimal", "listfloat"])
+        cases.append({"t": "argx", "ty": k, "val": rand_argx(rng, k)})
     return cases
+
+
+FLOAT_BITS = [0x0000000000000000, 0x8000000000000000, 0x0000000000000001, 0x8000000000000001, 0x000FFFFFFFFFFFFF, 0x0010000000000000,
+              0x7FEFFFFFFFFFFFFF, 0xFFEFFFFFFFFFFFFF, 0x7FF0000000000000, 0xFFF0000000000000, 0x7FF8000000000000, 0xFFF8000000000000,
+              0x7FF0000000000001, 0x3FF0000000000000, 0x3FF0000000000001, 0x3FEFFFFFFFFFFFFF, 0x3FB999999999999A, 0x4340000000000000,
+              0x4340000000000001, 0x433FFFFFFFFFFFFF, 0x3E7AD7F29ABCAF48, 0x44B52D02C7E14AF6]
+
+
+def rand_decimal(rng):
+    """text accepted by decimal.Decimal(); constructed exactly, independent of the context precision"""
+    digits = lambda n: str(rng.randrange(1, 10)) + "".join(str(rng.randrange(10)) for _ in range(n - 1))
+    r = rng.random()
+    sign = rng.choice(["", "-"])
+    if r < 0.30:        # more significant digits than the default context (28): 29..60
+        n = rng.choice([28, 29, 29, 30, 40, 59, 60, 100])
+        d = digits(n)
+        cut = rng.randrange(0, n + 1)
+        body = d[:cut] + ("." + d[cut:] if cut < n else "")
+        if cut == 0:
+            body = "0" + body
+        return sign + body + rng.choice(["", "", "E+5", "E-50", "E+999990", "E-999990"])
+    if r < 0.45:        # exponents around the limits of the default context (Emax 999999, Emin -999999, Etiny -1000026)
+        return sign + rng.choice(["1", "9.99", "123", digits(28), digits(5)]) + "E" + rng.choice(
+            ["+999999", "+999998", "+1000000", "+1000001", "-999999", "-1000000", "-1000026", "-1000027", "-1000100", "+999972", "+2000000",
+             "-2000000"])
+    if r < 0.58:        # NaN / sNaN with payloads (short, 28, 29, 40 digits), infinities
+        return sign + rng.choice(["NaN", "sNaN", "NaN0", "NaN1", "sNaN7", "NaN" + digits(28), "NaN" + digits(29), "sNaN" + digits(40),
+                                  "Infinity", "Inf"])
+    if r < 0.70:        # zeros with sign and exponent, trailing zeros
+        return sign + rng.choice(["0", "0.0", "0.000", "0E+10", "0E-10", "0E+999999", "0E-1000026", "1.50", "1.500000", "100", "1E+2",
+                                  "0.000001", "0.0000001", "1E-7", "1E-6"])
+    if r < 0.80:        # big integers as Decimals
+        return str(rng.choice([2 ** 200, -(2 ** 200), 10 ** 28, 10 ** 28 - 1, 10 ** 28 + 1, 10 ** 40 + 7, 2 ** 93, 3 ** 100]))
+    if r < 0.88:        # values computed under a wider context
+        with decimal.localcontext() as ctx:
+            ctx.prec = rng.choice([29, 40, 60])
+            return str(rng.choice([decimal.Decimal(2).sqrt(), decimal.Decimal(1) / decimal.Decimal(3), decimal.Decimal(1) / decimal.Decimal(7) * 10 ** 30,
+                                   decimal.Decimal(10).ln()]))
+    return sign + str(rng.randrange(10 ** 9)) + "e" + str(rng.randrange(-30, 30))
+
+
+def rand_argx(rng, k):
+    if k == "float":
+        return struct.pack("!Q", rng.choice(FLOAT_BITS + [rng.getrandbits(64), rng.getrandbits(52), rng.getrandbits(64) | 0x7FF0000000000000])).hex()
+    if k == "decimal":
+        return rand_decimal(rng)
+    if k == "listdecimal":
+        return [rand_decimal(rng) for _ in range(rng.choice([0, 1, 2, 5]))]
+    if k == "listfloat":
+        return [rand_argx(rng, "float") for _ in range(rng.choice([0, 1, 3]))]
+    if k == "unicode":
+        return rng.choice(["", "abc", "\u00e9\u4e2d\U0001F600", "\x00\n", "a" * 100, "\U0010FFFF", "\U00010000" * 20, "\uffff\ufffe", "\ud800",
+                           "x\udfffy", "\u0000", "\u00e9" * 32768])
+    if k == "path":
+        return rng.choice(["/tmp/x", "relative/p", "/", "/a b/\u00e9", "/" + "d" * 255, "/\U0001F600/x"])
+    if k == "datetime":
+        off = rng.choice([None, ["+", 0, 0], ["-", 0, 0], ["-", 5, 30], ["+", 14, 0], ["-", 23, 59], ["+", 23, 59], ["+", 0, 1], ["-", 0, 1]])
+        y, mo, d = rng.choice([(1, 1, 1), (9999, 12, 31), (1970, 1, 1), (2000, 2, 29), (2024, rng.randrange(1, 13), rng.randrange(1, 29))])
+        h, mi, s = rng.choice([(0, 0, 0), (23, 59, 59), (rng.randrange(24), rng.randrange(60), rng.randrange(60))])
+        return [y, mo, d, h, mi, s, rng.choice([0, 1, 999999, 999999, rng.randrange(10 ** 6)]), off]
+    # amplist: a = Integer, b = String, c = ListOf(Decimal)
+    blen = lambda: rng.choice([0, 1, 3, 255, 256, 65535 if rng.random() < 0.1 else 7, 65536 if rng.random() < 0.05 else 2])
+    return [[rng.choice([0, -1, 2 ** 64, -(2 ** 64), 2 ** 1000, rng.randrange(-100, 100)]), bytes(blen()).hex(),
+             [rand_decimal(rng) for _ in range(rng.choice([0, 1, 3]))]] for _ in range(rng.choice([0, 1, 3]))]
 
 
 def corpus():
@@ -404,6 +488,22 @@ def corpus():
         {"t": "arg", "ty": ["list", "str"], "val": ["00" * 65536]},
         {"t": "arg", "ty": ["list", "str"], "val": ["00" * 65535]},
         {"t": "argx", "ty": "float", "val": struct.pack("!d", float("nan")).hex()},
+        {"t": "argx", "ty": "float", "val": "0000000000000001"},
+        {"t": "argx", "ty": "float", "val": "8000000000000000"},
+        # a Decimal with more significant digits than the default context precision must come back exactly
+        {"t": "argx", "ty": "decimal", "val": "1234567890123456789012345678901234567890"},
+        {"t": "argx", "ty": "decimal", "val": str(2 ** 200)},
+        {"t": "argx", "ty": "decimal", "val": "0.1234567890123456789012345678901"},
+        {"t": "argx", "ty": "decimal", "val": "1E+1000000"},
+        {"t": "argx", "ty": "decimal", "val": "1E-1000027"},
+        {"t": "argx", "ty": "decimal", "val": "-sNaN1234567890123456789012345678901234567890"},
+        {"t": "argx", "ty": "decimal", "val": "-0E-5"},
+        {"t": "argx", "ty": "listdecimal", "val": ["1.000000000000000000000000000000000001", "NaN", "-0"]},
+        {"t": "argx", "ty": "unicode", "val": "\ud800"},
+        {"t": "argx", "ty": "datetime", "val": [1, 1, 1, 0, 0, 0, 0, ["+", 23, 59]]},
+        {"t": "argx", "ty": "datetime", "val": [9999, 12, 31, 23, 59, 59, 999999, ["-", 23, 59]]},
+        {"t": "arg", "ty": "int", "val": 2 ** 1000},
+        {"t": "arg", "ty": "int", "val": -(2 ** 64)},
     ]
 
 
